@@ -163,6 +163,12 @@ def rcoord(ctx):
     if isinstance(last, ast.Return) and isinstance(last.value, ast.Tuple) and len(last.value.elts) == 2:
         try:
             a = Alg()
+            for st in fn.body:
+                if isinstance(st, ast.Assign) and not (isinstance(st.targets[0], ast.Name) and st.targets[0].id in (pos, cur)):
+                    try:
+                        a.assign(st)
+                    except Uninterpreted:
+                        pass
             gx, gy = a.ev(last.value.elts[0]), a.ev(last.value.elts[1])
             ok = gx == atom("%s[0]" % pos) + atom("%s.x" % cur) and gy == atom("%s[1]" % pos) + atom("%s.y" % cur)
         except Uninterpreted:
